@@ -279,6 +279,12 @@ fn run(ctx: &mut Ctx) {
         count_pool(c, st);
         case_fn(s, c, st)
     });
+    let total_large = ctx.tier.pick(6000, 120000);
+    let strat_large = move || case_strategy_large(ALL_POOLS, W_DEFAULT, fix);
+    ctx.generated("gen-large", &strat_large, total_large, &|s, c, st| {
+        count_pool(c, st);
+        case_fn(s, c, st)
+    });
     if ctx.tier == crate::runner::Tier::Thorough {
         ctx.fuzz_campaign("fuzz_lang", 10000);
     }
